@@ -16,6 +16,7 @@ Case kinds
          `parse_colang_file` inside the real `_parse_colang_files_recursively`; same oracle and model.
 """
 import contextlib
+import functools
 import glob
 import io
 import json
@@ -30,6 +31,7 @@ import time
 import traceback
 
 from ..translate import c13 as tr
+from ..translate import c13raise as tr_raise
 
 PROPERTY = "C13"
 THEOREM_MODULE = "NemoVerif.Theorems.C13"
@@ -55,7 +57,9 @@ ERR_TIMEOUT = float(os.environ.get("VERIF_C13_TIMEOUT", "10"))
 
 
 def translate():
-    return tr.run()
+    info = tr.run()
+    info["raise_sites"] = tr_raise.run()
+    return info
 
 
 # ============================================================================================ sources
@@ -80,8 +84,14 @@ def shipped():
 def read_src(src):
     if "file" in src:
         with open(os.path.join(REPO, src["file"]), encoding="utf-8") as f:
-            return f.read()
-    return src["text"]
+            text = f.read()
+    else:
+        text = src["text"]
+    if src.get("deblank"):
+        # the same program without its removable blank lines (Colang 1.0): the edits then put blank lines back, also
+        # where the shipped file already has one (e.g. between a comment and the `$var = ...` it documents)
+        text = deblank_v1(text)
+    return text
 
 
 # ---------------------------------------------------------------- generated programs
@@ -309,9 +319,84 @@ def gen_v1_program(rng):
             lines.append(u + "else when user intent1")
             lines.append(u + u + "bot reply1")
         if rng.random() < 0.3:
-            lines.append(u + "user intent0 or \\")
-            lines.append(u + u + "intent1")
+            lines.extend(_v1_continuation(rng, u, u))
         lines.append(u + f"bot reply{rng.randrange(2)}")
+        lines.append("")
+    return "\n".join(lines)
+
+
+def _v1_continuation(rng, ind, u):
+    """a statement continued on the next line(s): a line ending in `\\` or in the operator ` or` (get_numbered_lines joins them)"""
+    r = rng.random()
+    if r < 0.35:
+        return [ind + "$y = execute act(a=1, \\", ind + u + rng.choice(["", " "]) + "b=2)"]
+    if r < 0.7:
+        return [ind + "if $x > 1 or" + rng.choice(["", " \\"]), ind + u + u + "$x < 0", ind + u + "bot reply0"]
+    return [ind + "if $x > 1 or", ind + u + "$x < 0 or \\", ind + "$x == 7", ind + u + "bot reply0"]
+
+
+V1_INSTR = ["Extract the math question from the user's input.", "Greet the user warmly,", "and mention the weather.", "Summarize: all of it", "a \"quoted\" word",
+            "x", "use $name here", "two  blanks", "ünï ✓", "ends with or", "1 + 1 = 2"]
+
+
+def gen_v1_comment_program(rng):
+    """Valid Colang 1.0 programs in which comments CARRY MEANING: `# ...` lines (one or several) and `\"\"\" ... \"\"\"` blocks (one line
+    or several) directly above `$var = ...` (-> `instructions` of `generate_value`), above bot steps (-> generation instructions
+    at run time), above other steps, above `define`; some already separated from the statement by a blank line."""
+    lines = []
+    u = rng.choice(["  ", "    ", "   "])
+
+    def comment(ind):
+        r = rng.random()
+        if r < 0.4:
+            out = [ind + "# " + rng.choice(V1_INSTR)]
+        elif r < 0.6:
+            out = [ind + "# " + rng.choice(V1_INSTR) for _ in range(rng.choice([2, 2, 3]))]
+        elif r < 0.7:
+            out = [ind + rng.choice(["#", "#x", "#  padded  "]), ind + "# " + rng.choice(V1_INSTR)]
+        elif r < 0.82:
+            out = [ind + '"""' + rng.choice(V1_INSTR).replace('"', "'") + '"""']
+        elif r < 0.92:
+            out = [ind + '"""' + rng.choice(["", "First line"]), ind + rng.choice(["", " "]) + rng.choice(V1_INSTR).replace('"', "'"), ind + rng.choice(["more", "  indented more"]), ind + '"""']
+        else:
+            out = [ind + '"""Open', ind + 'closed here"""']
+        if rng.random() < 0.15:
+            out.append("")  # the shipped generate_value config has the blank line already
+        return out
+
+    lines.append("define user ask")
+    lines.append(u + json.dumps(rng.choice(["hello", "what # is", "a or b"])))
+    lines.append("")
+    if rng.random() < 0.5:
+        lines.extend(comment(""))
+    lines.append("define bot reply0")
+    lines.append(u + json.dumps(rng.choice(["ok", "sure thing"])))
+    lines.append("")
+    for i in range(rng.randrange(1, 4)):
+        if rng.random() < 0.3:
+            lines.extend(comment(""))
+        lines.append(rng.choice([f"define flow c{i}", f"define flow c{i}", "define flow", f"define subflow s{i}"]) if i else f"define flow c{i}")
+        lines.append(u + "user ask")
+        for _ in range(rng.randrange(1, 5)):
+            r = rng.random()
+            ind = u
+            if r < 0.15:
+                lines.append(u + "if $x > 1")
+                ind = u + u
+            if rng.random() < 0.8:
+                lines.extend(comment(ind))
+            r = rng.random()
+            if r < 0.4:
+                lines.append(ind + f"${rng.choice(['q', 'name', 'full_query'])} = ...")
+            elif r < 0.7:
+                lines.append(ind + rng.choice(["bot reply0", "bot answer", "bot $q", 'bot "literal"']))
+            elif r < 0.8:
+                lines.append(ind + "$y = execute act(a=$q)")
+            elif r < 0.9:
+                lines.extend(_v1_continuation(rng, ind, u))
+            else:
+                lines.append(ind + "$z = 1")
+        lines.append(u + "bot reply0")
         lines.append("")
     return "\n".join(lines)
 
@@ -541,6 +626,8 @@ def apply_edit_v2(pieces, e):
             else:
                 out.append(p)
         return out
+    if op == "crlf":  # the whole file with CRLF line ends (a `\r` in front of every line break outside tokens = trailing whitespace)
+        return [["n", True] if p[0] == "n" else p for p in pieces]
     if op == "blank0":  # blank line before the first line
         return ws_pieces(e["ws"]) + [["n", e.get("cr", False)]] + pieces
     pos = break_positions(pieces, e.get("kw", False), e.get("aim"))
@@ -596,16 +683,62 @@ def _gen_edit_v2(rng, allow_tab=True, kw=None):
         return {"op": "trail", "at": rng.randrange(10 ** 6), "kw": kw, "ws": rng.choice([" ", "  ", "     "] + (["\t", " \t"] if allow_tab and rng.random() < 0.3 else []))}
     if r < 0.8:
         return {"op": "comment", "at": rng.randrange(10 ** 6), "kw": kw, "gap": rng.choice(["", " ", "  "]),
-                "text": rng.choice(["# note", "#", "# flow x", "#  define y ", "# \"quoted\" 'x'", "# tab\there", "# ünï ✓", "## $v = 1 (", "# ..."])}
-    if r < 0.97:
+                "text": rng.choice(["# note", "#", "# flow x", "#  define y ", "# \"quoted\" 'x'", "# tab\there", "# ünï ✓", "## $v = 1 (", "# ...", "# meta: exclude from llm"])}
+    if r < 0.94:
         return {"op": "scale", "k": rng.choice([2, 2, 3, 4])}
+    if r < 0.97:
+        return {"op": "crlf"}
     return {"op": "blank0", "ws": rng.choice(["", " ", "  "]), "cr": False}
 
 
 # ---- Colang 1.0 edits work on raw lines
 
+_V1_CONT = re.compile(r"(\\|(?<![^\s])or)\s*(#.*)?$")
+
+
+def _v1_string_lines(raw, recs):
+    """indices of the raw lines that belong to a multi-line string (first to last line), from the REAL records"""
+    inside = set()
+    for r in recs:
+        if "\n" in r["text"]:
+            span = r["text"].count("\n") + 1
+            inside.update(range(r["number"] - span, r["number"]))
+    return inside
+
+
+def v1_comment_lines(raw, in_string=()):
+    """indices of the comment lines of a Colang 1.0 text: `# ...` lines and the lines of `\"\"\" ... \"\"\"` blocks (one line or
+    several).  Written from the language description (used to AIM edits only, never to judge)."""
+    out, in_block = set(), False
+    for i, l in enumerate(raw):
+        if i in in_string:
+            continue
+        t = l.strip()
+        if in_block:
+            out.add(i)
+            if t.split("#")[0].rstrip().endswith('"""'):
+                in_block = False
+            continue
+        if t.startswith("#"):
+            out.add(i)
+        elif t.startswith('"""'):
+            out.add(i)
+            t0 = t.split("#")[0].rstrip()
+            if t0 == '"""' or not t0.endswith('"""'):
+                in_block = True
+    return out
+
+
 def v1_boundaries(content):
-    """(safe insertion indices for a blank line, indices of lines that may get trailing blanks) from the REAL numbered lines."""
+    return _v1_boundaries(content)
+
+
+@functools.lru_cache(maxsize=64)
+def _v1_boundaries(content):
+    """(safe insertion indices for a blank line, indices of lines that may get trailing blanks).  A blank line is meaningless
+    layout everywhere except inside a multi-line string (taken from the REAL numbered lines) and between a line ending in
+    `\\` / ` or` and its continuation (syntactic, conservative).  In particular it IS layout between a comment and the statement
+    the comment documents, between two comment lines, and inside a `\"\"\"` comment block."""
     from nemoguardrails.colang.v1_0.lang.utils import get_numbered_lines
 
     raw = content.split("\n")
@@ -613,25 +746,61 @@ def v1_boundaries(content):
         recs = get_numbered_lines(content)
     except Exception:  # noqa
         return [], []
-    ends = {0}
-    in_string = set()
-    for r in recs:
-        ends.add(r["number"])
-        if "\n" in r["text"]:
-            span = r["text"].count("\n") + 1
-            in_string.update(range(r["number"] - span, r["number"]))
-    # multi-line `"""` comments: lines between the opening and closing marker are comment text (blank lines are dropped
-    # there too, but trailing blanks of the marker lines are harmless as well) - no restriction needed.
-    safe = sorted(j for j in ends if j <= len(raw))
-    # extend over blank / comment-only lines that follow a boundary
-    out = set(safe)
-    for j in safe:
-        t = j
-        while t < len(raw) and (raw[t].strip() == "" or raw[t].strip().startswith("#")):
-            t += 1
-            out.add(t)
+    in_string = _v1_string_lines(raw, recs)
+    unsafe = {j for j in range(1, len(raw)) if j in in_string and (j - 1) in in_string}
+    # an unterminated multi-line string swallows the rest of the file without a record: nothing is safe after its first line
+    opener = _v1_unterminated_string(raw, in_string)
+    if opener is not None:
+        unsafe.update(range(opener + 1, len(raw) + 1))
+        in_string = set(in_string) | set(range(opener, len(raw)))
+    for j in range(1, len(raw) + 1):
+        if _V1_CONT.search(raw[j - 1]):
+            unsafe.add(j)
+    safe = [j for j in range(len(raw) + 1) if j not in unsafe]
     trail_ok = [i for i in range(len(raw)) if i not in in_string]
-    return sorted(out), trail_ok
+    return safe, trail_ok
+
+
+def _v1_unterminated_string(raw, in_string):
+    """index of the first line that opens a multi-line string which is never closed (no record is produced for it)"""
+    comment = v1_comment_lines(raw, in_string)
+    for i, l in enumerate(raw):
+        if i in in_string or i in comment:
+            continue
+        t = l.strip()
+        if t.startswith('"') and not t.startswith('"""') and not t.endswith('"'):
+            return i
+    return None
+
+
+def deblank_v1(content):
+    """drop every blank line that is meaningless layout (see v1_boundaries)"""
+    raw = content.split("\n")
+    safe, _ = v1_boundaries(content)
+    ok = set(safe)
+    keep = [l for i, l in enumerate(raw) if not (l.strip() == "" and i in ok and i < len(raw) - 1)]
+    return "\n".join(keep)
+
+
+def v1_comment_positions(content):
+    return _v1_comment_positions(content)
+
+
+@functools.lru_cache(maxsize=64)
+def _v1_comment_positions(content):
+    """(insertion indices next to a comment line, comment lines and their neighbours) - where the 1.0 layout edits are aimed"""
+    raw = content.split("\n")
+    safe, trail_ok = v1_boundaries(content)
+    try:
+        from nemoguardrails.colang.v1_0.lang.utils import get_numbered_lines
+
+        in_string = _v1_string_lines(raw, get_numbered_lines(content))
+    except Exception:  # noqa
+        return [], []
+    cl = v1_comment_lines(raw, in_string)
+    pos = [j for j in safe if (j - 1) in cl or j in cl]
+    tl = [i for i in trail_ok if i in cl or (i - 1) in cl or (i + 1) in cl]
+    return pos, tl
 
 
 def apply_edit_v1(content, e):
@@ -644,6 +813,13 @@ def apply_edit_v1(content, e):
             out.append(" " * (n * e["k"]) + l[n:])
         return "\n".join(out)
     safe, trail_ok = v1_boundaries(content)
+    if op == "crlf":  # CRLF line ends: a trailing `\r` on every line outside multi-line strings
+        ok = set(trail_ok)
+        return "\n".join(l + "\r" if i in ok and i < len(raw) - 1 and not l.endswith("\r") else l for i, l in enumerate(raw))
+    if e.get("aim") == "comment":
+        # next to a comment line: between a comment and the statement it documents, between two comment lines, inside a block
+        cpos, ctl = v1_comment_positions(content)
+        safe, trail_ok = (cpos or safe), (ctl or trail_ok)
     if op == "blank":
         if not safe:
             return content
@@ -658,12 +834,21 @@ def apply_edit_v1(content, e):
     raise ValueError(op)
 
 
-def gen_edit_v1(rng):
+def gen_edit_v1(rng, aim=None):
+    e = _gen_edit_v1(rng)
+    if aim and e["op"] in ("blank", "trail"):
+        e["aim"] = aim
+    return e
+
+
+def _gen_edit_v1(rng):
     r = rng.random()
     if r < 0.4:
         return {"op": "blank", "at": rng.randrange(10 ** 6), "ws": rng.choice(["", "", " ", "    ", "\t", " \t "])}
-    if r < 0.75:
+    if r < 0.72:
         return {"op": "trail", "at": rng.randrange(10 ** 6), "ws": rng.choice([" ", "  ", "\t", " \t", "\r"])}
+    if r < 0.77:
+        return {"op": "crlf"}
     return {"op": "scale", "k": rng.choice([2, 3, 4])}
 
 
@@ -671,7 +856,7 @@ def gen_edit_v1(rng):
 
 SOUP = ["flow", "define", "user", "bot", "match", "send", "await", "(", ")", "\"", "\"\"\"", "$x", "=", "\n", "\n  ", "\n    ", "\n ",
         "if", "else", "when", "or", "and", "#", "\\", "\t", "...", "import", "a", "1", ":", ",", "[", "]", "{", "}", "é", "'", " ", "execute",
-        "\r\n", "  ", "@", "->", ".", "✓", "\u2028", "\x0c", "0", "flow a\n  b\n", " or", "!", "?", "%", "**", "as", "$", "\u00a0"]
+        "\r\n", "  ", "@", "->", ".", "✓", "(x=1, 2)", "\n  send Ev(x=1, $y)", "\u2028", "\x0c", "0", "flow a\n  b\n", " or", "!", "?", "%", "**", "as", "$", "\u00a0"]
 
 
 def mutate_text(rng, s):
@@ -726,6 +911,12 @@ def gen_cases(rng, tier):
         cases.append({"kind": "file", "src": {"file": rng.choice(files)}, "seed": rng.randrange(10 ** 9), "n": rng.choice([1, 1, 2, 3])})
     for _ in range(n_v1gen):
         cases.append({"kind": "v1", "src": {"text": gen_v1_program(rng)}, "edits": [gen_edit_v1(rng) for _ in range(rng.choice([1, 1, 2]))]})
+    for _ in range(n_v1gen):
+        # comments that carry meaning x every 1.0 layout edit, most of them aimed at the comment lines and their neighbours
+        cases.append({"kind": "v1", "src": {"text": gen_v1_comment_program(rng)},
+                      "edits": [gen_edit_v1(rng, aim="comment" if rng.random() < 0.7 else None) for _ in range(rng.choice([1, 1, 2]))]})
+    cm = comment_sweep_cases()
+    cases.extend(cm if not quick else rng.sample(cm, min(len(cm), 160)))
     cs = cont_sweep_cases()
     cases.extend(cs if not quick else rng.sample(cs, min(len(cs), 90)))
     if not quick:
@@ -785,6 +976,11 @@ def canon_ast(x):
     if isinstance(x, dict):
         out = {}
         for k, v in x.items():
+            if k == "_source_mapping" and isinstance(v, dict) and v.get("comment") is not None:
+                # positions and source text are dropped, but the comment is CONTENT: the Colang 1.0 runtime hands the comment above
+                # a step to the LLM as instructions (`compute_next_state`: `next_step_comment`), `_process_ellipsis` turns the
+                # comment above `$v = ...` into the `instructions` of `generate_value`
+                out["_comment"] = v["comment"]
             if k in DROP_KEYS:
                 continue
             if k == "file_info" and isinstance(v, dict):
@@ -885,6 +1081,8 @@ def run_layout_v2(content, edits, want_ast):
         obs["model_seg_problem"] = mprob or meprob
     else:
         obs["mpieces"], obs["mepieces"] = mp, mep
+        if len(x) <= MAX_TEXTSEG_CHARS and len(ex) <= MAX_TEXTSEG_CHARS:
+            obs["mtext"], obs["metext"] = x + "\n", ex + "\n"  # what the lexer gets, character level (TextLayout.seg)
     # the edited text is re-segmented by the real lexer: it must give back the edited pieces (else the edit fell inside a token)
     rp, rprob = segment(econtent + "\n")
     obs["reseg_same"] = (rprob is None and rp == ep)
@@ -994,6 +1192,34 @@ def _site(e):
     return tb[-1].name if tb else "?"
 
 
+def raise_site(e):
+    """where the parser exception came from, set against the static scan of raise sites (translate/c13raise.py):
+    explicit = the innermost frame stands on a `raise` / `assert` statement of a scanned parser module (then `static` = the class
+    the scan resolved there); implicit = a scanned module, but an ordinary statement (IndexError from indexing, ...);
+    engine = raised inside lark; outside = elsewhere."""
+    try:
+        tb = traceback.extract_tb(e.__traceback__)
+        if not tb:
+            return {"kind": "none"}
+        last = tb[-1]
+        fn = os.path.realpath(last.filename)
+        root = os.path.realpath(REPO) + os.sep
+        if fn.startswith(root):
+            rel = fn[len(root):]
+            if rel in tr_raise.scanned_files():
+                st = tr_raise.site_index().get((rel, last.lineno))
+                if st is None:
+                    return {"kind": "implicit", "file": rel, "line": last.lineno}
+                classes = sorted({x["cls"] for x in tr_raise.scan() if x["file"] == rel and x["line"] == last.lineno})
+                return {"kind": "explicit", "file": rel, "line": last.lineno, "static": classes}
+            return {"kind": "outside", "file": rel}
+        if os.sep + "lark" + os.sep in fn:
+            return {"kind": "engine", "known": type(e).__name__ in {x["cls"] for x in tr_raise.scan() if x["kind"] == "engine"}}
+        return {"kind": "outside", "file": os.path.basename(fn)}
+    except Exception as ex:  # noqa
+        return {"kind": "error", "msg": f"{type(ex).__name__}: {ex}"[:120]}
+
+
 def observe_load(fn, path):
     """Run fn() (a loader call); describe the outcome, and the parser exception the wrapper handled (if any)."""
     from nemoguardrails.colang.v2_x.runtime.errors import ColangParsingError
@@ -1009,6 +1235,7 @@ def observe_load(fn, path):
              "at_wrapper": names[-1] in ("_parse_colang_files_recursively", "format_colang_parsing_error_message") if names else False}
         if inner is not None:
             o["inner"] = exc_record(inner)
+            o["raise_site"] = raise_site(inner)
         return o
 
 
@@ -1207,6 +1434,29 @@ def run_impl(case):
 # ============================================================================================ model side
 
 MAX_MODEL_PIECES = 6000
+MAX_TEXTSEG_CHARS = int(os.environ.get("VERIF_C13_TEXTSEG", "4000"))
+
+
+def scale_text_py(text, k):
+    """every blank of the run of blanks directly after a line break, k times (what `TextLayout.scaleText k false` does)"""
+    return re.sub(r"(?<=\n)[ \t]+", lambda m: "".join(ch * k for ch in m.group(0)), text)
+
+
+def token_table(pieces):
+    """[offset, type, length] of the body tokens of a segmentation = the oracle of the character-level scanner"""
+    out, pos = [], 0
+    for p in pieces:
+        k = p[0]
+        if k == "t":
+            out.append([pos, p[1], len(p[2])])
+            pos += len(p[2])
+        elif k == "c":
+            pos += len(p[1])
+        elif k == "n":
+            pos += 2 if p[1] else 1
+        else:
+            pos += 1
+    return out
 
 
 def _edits_of(case, obs):
@@ -1226,11 +1476,24 @@ def model_requests(case, obs):
             reqs.append({"m": "C13.layout", "pieces": obs["mpieces"], "k": edits[0]["k"]})
         if "pre" in obs:
             reqs += [{"m": "C13.preexpand", "lines": obs["pre_in"][0]}, {"m": "C13.preexpand", "lines": obs["pre_in"][1]}]
+        if "mtext" in obs:
+            # character level: Lean scans the text itself; only WHICH body terminal starts where (and how long it is) comes from the real lexer
+            reqs += [{"m": "C13.textseg", "text": obs["mtext"], "toks": token_table(obs["mpieces"])},
+                     {"m": "C13.textseg", "text": obs["metext"], "toks": token_table(obs["mepieces"])}]
+            if len(edits) == 1 and edits[0]["op"] == "scale" and scale_text_py(obs["mtext"], edits[0]["k"]) == obs["metext"]:
+                # `text_layout_scale`: Lean's own `scaleText k` of the original text must be the edited text and scan to its pieces
+                reqs.append({"m": "C13.textseg", "text": obs["mtext"], "k": edits[0]["k"], "toks": token_table(obs["mepieces"])})
         return reqs
     if obs.get("version") == "1.0" and k in ("v1", "file"):
         if not HAVE_NUMBERED:
             return []
-        return [{"m": "C13.numbered", "lines": obs["raw"]}, {"m": "C13.numbered", "lines": obs["eraw"]}]
+        # the original goes in as CONTENT (Lean's own `splitNL` = `content.split("\n")`, theorems `numbered_content_*`), the edited text as lines
+        reqs = [{"m": "C13.numbered", "text": "\n".join(obs["raw"])}, {"m": "C13.numbered", "lines": obs["eraw"]}]
+        edits = _edits_of(case, obs)
+        if len(edits) == 1 and edits[0]["op"] == "scale":
+            # Lean's own `scaleLine k` on the original lines (the edit of `numbered_lines_scale_partial`)
+            reqs.append({"m": "C13.numbered", "text": "\n".join(obs["raw"]), "k": edits[0]["k"]})  # Lean's `scaleContent` on the content
+        return reqs
     if k in ("err", "fmt"):
         reqs = _errwrap_requests(k, obs)
         if "num" in obs and HAVE_NUMBERED:
@@ -1276,6 +1539,26 @@ def _cmp_stream(real, model, what):
     return None
 
 
+_REC_FIELDS = ("text", "indentation", "comment")
+
+
+def _cmp_numbered(real, m, what):
+    """real get_numbered_lines vs the NumberedLines model; names the first record AND field that differ"""
+    if "err" in real or "err" in m:
+        if real.get("err") != m.get("err"):
+            return f"get_numbered_lines ({what}): real {json.dumps(real)[:100]} model {json.dumps({k: v for k, v in m.items() if k != 'tight'})[:100]}"
+        return None
+    rr = [r[:3] for r in real["ok"]]
+    if rr != m["ok"]:
+        for i, (a, b) in enumerate(zip(rr, m["ok"])):
+            if a != b:
+                f = next(j for j in range(3) if a[j] != b[j])
+                return (f"get_numbered_lines ({what}) record {i} (source line {real['ok'][i][3]}, text {a[0][:40]!r}) field `{_REC_FIELDS[f]}`: "
+                        f"real {a[f]!r} model {b[f]!r}")
+        return f"get_numbered_lines ({what}): {len(rr)} records vs model {len(m['ok'])}"
+    return None
+
+
 def erased(stream):
     if "ok" not in stream:
         return {"err": stream["err"]}
@@ -1303,6 +1586,21 @@ def compare(case, obs, mouts):
     k = case["kind"]
     mouts = _unsafe(mouts)
     if obs.get("version") == "2.x" and k in ("tok", "v2", "file"):
+        if mouts and "text" in mouts[-1]:
+            m = mouts[-1]
+            mouts = mouts[:-1]
+            if m["text"] != obs["metext"]:
+                return "Lean's scaleText of the original text is not the scaled text"
+            if m.get("seg") != obs["mepieces"]:
+                return "character-level scanner on Lean's scaled text does not give the pieces of the scaled text: " + json.dumps(m.get("segerr") or "pieces differ")
+        if "mtext" in obs and len(mouts) >= 2 and all(("seg" in m or "segerr" in m) for m in mouts[-2:]):
+            for m, real, what in zip(mouts[-2:], (obs["mpieces"], obs["mepieces"]), ("original", "edited")):
+                if "segerr" in m:
+                    return f"character-level scanner ({what} text): model says {m['segerr']}, the real lexer segmented the text into {len(real)} pieces"
+                if m["seg"] != real:
+                    i = next((i for i, (a, b) in enumerate(zip(real, m["seg"])) if a != b), min(len(real), len(m["seg"])))
+                    return f"character-level scanner ({what} text): piece {i}: real lexer {real[i:i+2]} model {m['seg'][i:i+2]}"
+            mouts = mouts[:-2]
         d = _cmp_stream(obs["stream"], mouts[0], "original text") or _cmp_stream(obs["estream"], mouts[1], "edited text")
         if d:
             return d
@@ -1324,28 +1622,38 @@ def compare(case, obs, mouts):
                 return "Lean scaleP stream differs from the real stream of the scaled text"
         return None
     if obs.get("version") == "1.0" and k in ("v1", "file"):
-        for real, m, what in ((obs["num"], mouts[0], "original"), (obs["enum"], mouts[1], "edited")):
-            if "err" in real or "err" in m:
-                if real.get("err") != m.get("err"):
-                    return f"get_numbered_lines ({what}): real {json.dumps(real)[:100]} model {json.dumps(m)[:100]}"
-            elif [r[:3] for r in real["ok"]] != m["ok"]:
-                for i, (a, b) in enumerate(zip([r[:3] for r in real["ok"]], m["ok"])):
-                    if a != b:
-                        return f"get_numbered_lines ({what}) record {i}: real {a} model {b}"
-                return f"get_numbered_lines ({what}): {len(real['ok'])} records vs model {len(m['ok'])}"
+        checks = [(obs["num"], mouts[0], "original"), (obs["enum"], mouts[1], "edited")]
+        if len(mouts) == 3:
+            # Lean's `scaleLine k` + `numbered` vs the real function on the Python-scaled text
+            checks.append((obs["enum"], mouts[2], "scaled by Lean's scaleLine"))
+        for real, m, what in checks:
+            d = _cmp_numbered(real, m, what)
+            if d:
+                return d
+        if len(mouts) == 3 and mouts[0].get("tight"):
+            # instance of `numbered_lines_scale_partial` on the REAL function: the hypothesis holds (every possible first line of a
+            # multi-line string is tight), so the real records of the scaled text are the real records with indentation x k
+            kk = _edits_of(case, obs)[0]["k"]
+            a, b = obs["num"], obs["enum"]
+            if "err" in a or "err" in b:
+                if a.get("err") != b.get("err"):
+                    return f"numbered_lines_scale_partial instance: real get_numbered_lines raises {a.get('err')} on the original, {b.get('err')} on the scaled text"
+            elif [[r[0], kk * r[1], r[2]] for r in a["ok"]] != [r[:3] for r in b["ok"]]:
+                return "numbered_lines_scale_partial instance fails on the real get_numbered_lines: " + first_difference([[r[0], kk * r[1], r[2]] for r in a["ok"]], [r[:3] for r in b["ok"]], "records")
         return None
     if k in ("err", "fmt"):
         if "num" in obs and HAVE_NUMBERED:
             real, mn = obs["num"], mouts[-1]
             mouts = mouts[:-1]
-            if "err" in real or "err" in mn:
-                if real.get("err") != mn.get("err"):
-                    return f"get_numbered_lines (mutated text): real {json.dumps(real)[:100]} model {json.dumps(mn)[:100]}"
-            elif [r[:3] for r in real["ok"]] != mn["ok"]:
-                return f"get_numbered_lines (mutated text): records differ: real {json.dumps([r[:3] for r in real['ok']])[-200:]} model {json.dumps(mn['ok'])[-200:]}"
+            d = _cmp_numbered(real, mn, "mutated text")
+            if d:
+                return d
             if not mouts:
                 return None
         m = mouts[0]
+        # NOTE: the raise-site cross-check (obs["raise_site"]) is a coverage statistic only (tags): a `raise` / `assert` line can
+        # also raise while its own condition or message is evaluated (`assert params_str[-1] == ")"` -> IndexError), and lark can
+        # raise builtin errors of its own - neither contradicts the scan.
         if obs["outcome"] == "ok":
             return None if m.get("returned") else f"loader returned, model says {json.dumps(m)[:160]}"
         if m.get("returned"):
@@ -1392,7 +1700,7 @@ def oracle(case, obs):
         if "ok" not in e:
             return f"layout edit makes a valid file unparsable: {e.get('exc')}: {e.get('msg', '')[:160]}"
         if e["ok"] != obs["ast"]["ok"]:
-            return "layout edit changes the flows the file parses to"
+            return "layout edit changes the flows the file parses to: " + first_difference(json.loads(obs["ast"]["ok"]), json.loads(e["ok"]))[:300]
         return None
     if k in ("err", "fmt"):
         o = obs["outcome"]
@@ -1408,6 +1716,27 @@ def oracle(case, obs):
             return None  # BaseException subclasses pass through by design
         return f"loader raised {obs['cls']} (in {obs['site']}) instead of ColangParsingError: {obs['msg'][:160]}"
     return None
+
+
+def first_difference(a, b, path="ast"):
+    """where two canonical parse results differ first (path: original value != edited value)"""
+    if type(a) is not type(b):
+        return f"{path}: {a!r} != {b!r}"
+    if isinstance(a, dict):
+        for k in sorted(set(a) | set(b)):
+            if k not in a or k not in b:
+                return f"{path}.{k}: {a.get(k, '<missing>')!r} != {b.get(k, '<missing>')!r}"
+            d = first_difference(a[k], b[k], f"{path}.{k}")
+            if d:
+                return d
+        return ""
+    if isinstance(a, list):
+        for i, (x, y) in enumerate(zip(a, b)):
+            d = first_difference(x, y, f"{path}[{i}]")
+            if d:
+                return d
+        return "" if len(a) == len(b) else f"{path}: {len(a)} items != {len(b)} items"
+    return "" if a == b else f"{path}: {a!r} != {b!r}"
 
 
 def _comment_after_long_string(obs, edits):
@@ -1512,8 +1841,22 @@ def tags(case, obs):
         t.append("orig:" + ("parses" if "ok" in obs["ast"] else "unparsable:" + str(obs["ast"].get("exc"))))
     if obs.get("reseg_same") is False:
         t.append("edit-inside-token")
+    if "mtext" in obs:
+        t.append("textseg")
+        ed = _edits_of(case, obs)
+        if len(ed) == 1 and ed[0]["op"] == "scale":
+            t.append("text-scale-instance:" + ("checked" if scale_text_py(obs["mtext"], ed[0]["k"]) == obs["metext"] else "not-applicable(multi-line token)"))
     if k in ("err", "fmt"):
         t.append("outcome:" + obs.get("outcome", "?") + (":" + obs.get("cls", "") if obs.get("outcome") == "raised" else ""))
+        if "raise_site" in obs:
+            rs = obs["raise_site"]
+            t.append("raise-site:" + rs.get("kind", "?"))
+            if rs.get("kind") == "explicit":
+                t.append("raise-site-hit:%s:%s" % (rs.get("file", "?").rsplit("/", 1)[-1], rs.get("line")))  # which static sites the search reached
+            if rs.get("kind") == "explicit" and "inner" in obs:
+                t.append("raise-site:explicit:" + ("listed-class" if obs["inner"]["cls"] in rs.get("static", []) else "other-class-while-evaluating-the-statement"))
+            if rs.get("kind") == "engine" and not rs.get("known"):
+                t.append("raise-site:engine:builtin-error-inside-lark")
         if "inner" in obs:
             t.append("inner:" + obs["inner"]["cls"] + ":line=" + ("int" if isinstance(obs["inner"]["line"], int) else str(obs["inner"]["line"])))
     return t
@@ -1521,6 +1864,20 @@ def tags(case, obs):
 
 def shrink(case):
     k = case["kind"]
+    if k == "file" and not case.get("sweep"):
+        # explicit form: the same source with the edits spelled out (then the edits and the text can be shrunk)
+        try:
+            content, version, edits = expand_file_case(case)
+            yield {"kind": "v2" if version == "2.x" else "v1", "src": case["src"], "edits": edits}
+        except Exception:  # noqa
+            pass
+    if k in ("v2", "v1") and "file" in case["src"]:
+        try:
+            text = read_src(case["src"])
+            if len(text) < 8000:
+                yield dict(case, src={"text": text})
+        except Exception:  # noqa
+            pass
     if k in ("tok", "v2", "v1") and len(case.get("edits", [])) > 1:
         for i in range(len(case["edits"])):
             yield dict(case, edits=case["edits"][:i] + case["edits"][i + 1:])
@@ -1560,6 +1917,37 @@ def cont_sweep_cases():
     return out
 
 
+_CM_SWEEP = None
+
+
+def comment_sweep_cases():
+    """every line boundary next to a comment line (`#` lines, `\"\"\"` blocks) of every shipped Colang 1.0 file - as shipped and
+    with its blank lines removed first - x {empty line, blanks-only line, trailing blanks on the line before}"""
+    global _CM_SWEEP
+    if _CM_SWEEP is not None:
+        return _CM_SWEEP
+    out = []
+    for f in shipped():
+        try:
+            content = read_src({"file": f})
+            if _is_v2(content) or not ("#" in content or '"""' in content):
+                continue
+            variants = [{"file": f}]
+            if deblank_v1(content) != content:
+                variants.append({"file": f, "deblank": True})
+            for src in variants:
+                pos, tl = v1_comment_positions(read_src(src))
+                for at in range(len(pos)):
+                    out.append({"kind": "v1", "src": src, "edits": [{"op": "blank", "at": at, "ws": "", "aim": "comment"}]})
+                    out.append({"kind": "v1", "src": src, "edits": [{"op": "blank", "at": at, "ws": "  ", "aim": "comment"}]})
+                for at in range(len(tl)):
+                    out.append({"kind": "v1", "src": src, "edits": [{"op": "trail", "at": at, "ws": " \t", "aim": "comment"}]})
+        except Exception:  # noqa
+            continue
+    _CM_SWEEP = out
+    return out
+
+
 def pre_sweep_cases():
     """every line end that the pre-parsing expansion looks at (stand-alone `...`, docstrings) and its neighbours, in every shipped
     2.x file that has one, x {trailing blanks, blank line, end-of-line comment}"""
@@ -1595,4 +1983,7 @@ def escalate(rng, focus, tier):
     for _ in range(600):
         cases.append({"kind": "v2", "src": {"text": gen_pre_program(rng)},
                       "edits": [gen_edit_v2(rng, allow_tab=False, aim="pre") for _ in range(rng.choice([1, 1, 2]))]})
-    return cont_sweep_cases() + pre_sweep_cases() + cases
+    for _ in range(600):
+        cases.append({"kind": "v1", "src": {"text": gen_v1_comment_program(rng)},
+                      "edits": [gen_edit_v1(rng, aim="comment") for _ in range(rng.choice([1, 1, 2]))]})
+    return comment_sweep_cases() + cont_sweep_cases() + pre_sweep_cases() + cases
